@@ -27,6 +27,7 @@ type Val struct {
 	K    []string
 	Body string
 	CF   string
+	CFI  bool // the /Crypt name and its parameters are indirect first elements of the arrays
 }
 
 const genBase = 100000
@@ -44,6 +45,9 @@ func (v Val) MarshalJSON() ([]byte, error) {
 		m["k"], m["e"] = nonNilS(v.K), nonNil(v.E)
 	case "st":
 		m["k"], m["e"], m["body"], m["cf"] = nonNilS(v.K), nonNil(v.E), v.Body, v.CF
+		if v.CFI {
+			m["cfi"] = true
+		}
 	}
 	return json.Marshal(m)
 }
@@ -57,11 +61,12 @@ func (v *Val) UnmarshalJSON(data []byte) error {
 		K    []string `json:"k"`
 		Body string   `json:"body"`
 		CF   string   `json:"cf"`
+		CFI  bool     `json:"cfi"`
 	}
 	if err := json.Unmarshal(data, &raw); err != nil {
 		return err
 	}
-	*v = Val{T: raw.T, A: raw.A, N: raw.N, E: raw.E, K: raw.K, Body: raw.Body, CF: raw.CF}
+	*v = Val{T: raw.T, A: raw.A, N: raw.N, E: raw.E, K: raw.K, Body: raw.Body, CF: raw.CF, CFI: raw.CFI}
 	return nil
 }
 
@@ -158,6 +163,9 @@ type Node struct {
 	K  string `json:"k"`
 	To int    `json:"to,omitempty"`
 	V  *Val   `json:"v,omitempty"`
+	// Twin != 0: the node is not an object but a reference with the object
+	// NUMBER of node Twin and another generation (it denotes null).
+	Twin int `json:"twin,omitempty"`
 }
 
 // Call is a top-level call of the model / the harness.
